@@ -60,3 +60,18 @@ Print Assumptions C02_ops.
 Print Assumptions C02_units.
 Print Assumptions C02_env.
 Print Assumptions C02_monitor.
+
+(** ** the memo cache and complemented edges: the crate's recursion on ids ([and_i], Interner/AndModel.v)
+    computes, for any store and any correct cache, an id denoting exactly [tand] of the operands' diagrams;
+    with the theorems above: the real [and] / [or] are pointwise whatever was computed before *)
+From PV Require Import Interner.Store Interner.AndModel Interner.AndProofs.
+Theorem C02_and_memoised : forall (fuel : nat) (s : mist) (x y : nid),
+  SOK0 s -> valid (length (fst s)) x -> valid (length (fst s)) y -> enough_fuel x y fuel ->
+  let '(s', r) := and_i fuel s x y in
+  SOK0 s' /\ aext (fst s) (fst s') /\ valid (length (fst s')) r /\
+  unfold (fst s') r = m_and (unfold (fst s) x) (unfold (fst s) y).
+Proof. exact (and_i_spec0 (var:=var) (val:=val)). Qed.
+Theorem C02_and_commutes : forall a b : mdd, m_and a b = m_and b a.
+Proof. exact (tand_comm (var:=var) (val:=val)). Qed.
+Print Assumptions C02_and_memoised.
+Print Assumptions C02_and_commutes.
